@@ -93,26 +93,26 @@ def run_sessions(c, codecs, pids, n_random, n_exh, extra_reqs=(), big=False):
             nontrivial.add(lines[i])
         c.dist("codec%d" % q.codec); c.dist("api%d" % q.api); c.dist("cb%d" % q.cb); c.dist("finish%d" % q.finish)
         c.dist("complete" if (a.F and a.F[1]) or (a.steps and a.steps[-1][1]) else "incomplete")
-        if q.api == 3:
+        if q.api >= 3:
             pass      # two cumulative tables: decided by the oracles alone (the model streams take one table)
         elif q.codec in (sessions.LDPC, sessions.P2D) and q.cb != 0 and a.H is not None and (q.finish == 0 or a.PM is not None) and q.k + q.r <= 400 and not (fails or a.P != 0 or a.Q != 0):
             # callback log (order included) vs the logged decoder models
             ev_req.append("Z %d %d %d %s %s %s %d %s %s" % (q.k, q.r, q.L, "1" if a.LN == "1" else "0", a.Hs, a.Ys, q.finish, a.PM or "-",
                                                             " ".join(map(str, q.esis if q.api == 0 else sorted(set(q.esis))))))
             ev_idx.append(i)
-        if (q.api != 3 and q.codec in (sessions.LDPC, sessions.P2D) and a.H is not None and a.HL is not None and (q.finish == 0 or a.PM is not None) and q.k + q.r <= 400
+        if (q.api < 3 and q.codec in (sessions.LDPC, sessions.P2D) and a.H is not None and a.HL is not None and (q.finish == 0 or a.PM is not None) and q.k + q.r <= 400
                 and a.P == 0 and a.Q == 0 and not any(f[0] in ("C01", "C03", "C04", "C10", "C16") for f in fails)):
             # ownership ledger (LdpcHeap.v): library-owned blocks after set-up, after every call, after finish, after release
             nent = sum(len(row) for row in a.H)
             hp_req.append("X %d %d %d %s %s %d %d %d %s %s" % (q.k, q.r, (nent + 1023) // 1024, "1" if a.LN == "1" else "0", a.Hs, q.cb, q.api, q.finish, a.PM or "-",
                                                                " ".join(map(str, q.esis if q.api == 0 else sorted(set(q.esis))))))
             hp_idx.append(i)
-        if (q.api != 3 and q.codec in (sessions.RS28, sessions.RS2M) and a.HL is not None and a.P == 0 and a.Q == 0
+        if (q.api < 3 and q.codec in (sessions.RS28, sessions.RS2M) and a.HL is not None and a.P == 0 and a.Q == 0
                 and not any(f[0] in ("C01", "C02", "C10") for f in fails)):
             hp_req.append("E %d %d %d %d %d %d %d %s" % (1 if q.codec == sessions.RS28 else 0, q.k, q.k + q.r, q.cb, q.api, 1 if q.role == 4 else 0, q.finish,
                                                          " ".join(map(str, q.esis))))
             hp_idx.append(i)
-        if fails or a.P != 0 or a.Q != 0 or q.api == 3:
+        if fails or a.P != 0 or a.Q != 0 or q.api >= 3:
             continue
         if q.codec in (sessions.RS28, sessions.RS2M):
             rs_req.append("R %d %d %d %d %d %s" % (q.k, q.k + q.r, 1 if q.cb else 0, q.api, q.finish, " ".join(map(str, q.esis))))
